@@ -255,7 +255,9 @@ fn run_case(s: &mut Suite, cli: &str, aws: bool, n: usize, o: &Opts) {
 		None => s.rep.count("oracle_openssl_unavailable"),
 	}
 	let client_only = o.client && !o.server;
-	match webpki_ok(&ee_der, &ca_der, client_only) {
+	// webpki is built on ring in the harness, which has no P-521: that algorithm is judged by OpenSSL alone
+	let webpki_verdict = if alg_model == "p521" { None } else { webpki_ok(&ee_der, &ca_der, client_only) };
+	match webpki_verdict {
 		Some(true) => s.rep.count("oracle_webpki_chain_ok"),
 		Some(false) => s.rep.violate("C18:webpki-chain", "webpki does not accept the written end-entity certificate under the written CA", replay.clone()),
 		None => s.rep.count("oracle_webpki_unavailable"),
